@@ -6,7 +6,7 @@ CONSTANTS
   MaxExtra = 1
   ReqSetIds = {"names", "mixed"}
   PathValIds = {"i2", "s2"}
-  VarLeaves = {"name", "inner.name", "kind", "r_string"}
+  VarLeaves = {"name", "inner.name", "kind", "r_string", "opt_s"}
   Numerics = {FALSE, TRUE}
   RespTypes = {"A"}
   ReplyIds = {"full"}
